@@ -249,11 +249,12 @@ theorem stripVars_id (argv : List Str) (h : NoVarWords argv = true) : stripVars 
   induction argv with
   | nil => rfl
   | cons a r ih =>
-    simp only [NoVarWords, List.all_cons, Bool.and_eq_true, bne_iff_ne, ne_eq, Bool.not_eq_true'] at h
+    simp only [NoVarWords, List.all_cons, Bool.and_eq_true, Bool.not_eq_true'] at h
     have hr : NoVarWords r = true := by simpa [NoVarWords] using h.2
-    cases a with
-    | nil => exact absurd rfl h.1.1
-    | cons c t => simp [stripVars, ih hr, h.1.2]
+    have ih' : stripVarsP false r = .ok r := ih hr
+    by_cases ha : a = []
+    · simp [stripVars, stripVarsP, ih', ha]
+    · simp [stripVars, stripVarsP, ih', ha, h.1]
 
 /-! ### config layers: `dict.update` per key -/
 
